@@ -88,6 +88,11 @@ theorem senders_leave_scheduler_alone (i : Nat) (s : S) :
 theorem queues_satisfy_mq_inv {s : S} (hr : Reach s) : mq_inv s.aq ∧ mq_inv s.eq :=
   ⟨(reach_inv1 hr).aqInv, (reach_inv1 hr).eqInv⟩
 
+/-- the shifts `1 << mq->receivep` of `messageq_empty` / `messageq_receive` (which the model does not guard) are
+    defined in every reachable state: `receivep < 32` for both queues -/
+theorem shifts_defined {s : S} (hr : Reach s) : s.aq.receivep.toNat < 32 ∧ s.eq.receivep.toNat < 32 :=
+  ⟨recv_lt s.aq (reach_inv1 hr).aqInv, recv_lt s.eq (reach_inv1 hr).eqInv⟩
+
 /-! ## drained_by_pass -/
 
 /-- **drained_by_pass** (what was moved): when the drain loop of a pass / `fibre_run` / `fibre_kill` receives NULL,
